@@ -32,6 +32,7 @@ type Engine struct {
 	globals     map[*types.Var]*ssa.Global
 	typeCache   map[string]types.Type
 	msUnit      *Unit
+	baseLocals  map[string]map[string]string // recorded locators of local names (claims/locals.json)
 	computingMS bool
 	knownGhostTypes map[string]types.Type // ghost arrays (Ref -> value) written by own functions: name -> element type
 	keyInfos    map[string]keyInfo
